@@ -35,12 +35,28 @@ mod verif_c15 {
         dcs
     }
 
-    fn is_member(layout: &[usize], a: SocketAddr) -> bool {
+    /// (dc, node) of an address built by `addr`, anything else -> u32::MAX.  The post-conditions compare these small
+    /// integers instead of `SocketAddr`s (an enum compared through memcmp: ~1800 memcmp unwindings per harness).
+    fn id_of(a: &SocketAddr) -> u32 {
+        match a {
+            SocketAddr::V4(v) => {
+                let o = v.ip().octets();
+                if o[0] == 127 && o[2] == 0 && v.port() == 80 {
+                    ((o[1] as u32) << 8) | o[3] as u32
+                } else {
+                    u32::MAX
+                }
+            },
+            _ => u32::MAX,
+        }
+    }
+
+    fn is_member(layout: &[usize], id: u32) -> bool {
         let mut d = 0;
         while d < layout.len() {
             let mut i = 0;
             while i < layout[d] {
-                if addr(d, i) == a {
+                if (((d as u32) << 8) | i as u32) == id {
                     return true;
                 }
                 i += 1;
@@ -82,14 +98,22 @@ mod verif_c15 {
         let res = DCAwareSelector.select_nodes(me, DC_NAMES[local_dc], total, &mut dcs, level);
         match &res {
             Ok(nodes) => {
+                const MAX_SELECTED: usize = @@NODEVEC_CAP@@;
+                assert!(nodes.len() <= MAX_SELECTED, "harness bound on the number of selected nodes");
+                let me_id = id_of(&me);
+                let mut ids = [u32::MAX; MAX_SELECTED];
                 let mut i = 0;
-                while i < nodes.len() {
-                    assert!(is_member(layout, nodes[i]), "a selected node is a current member");
-                    assert!(nodes[i] != me, "the local node is never selected");
-                    let mut j = 0;
-                    while j < i {
-                        assert!(nodes[j] != nodes[i], "no node is selected twice");
-                        j += 1;
+                while i < MAX_SELECTED {
+                    if i < nodes.len() {
+                        let id = id_of(&nodes[i]);
+                        assert!(is_member(layout, id), "a selected node is a current member");
+                        assert!(id != me_id, "the local node is never selected");
+                        let mut j = 0;
+                        while j < i {
+                            assert!(ids[j] != id, "no node is selected twice");
+                            j += 1;
+                        }
+                        ids[i] = id;
                     }
                     i += 1;
                 }
@@ -97,7 +121,6 @@ mod verif_c15 {
                 if exact {
                     assert!(nodes.len() == need, "exactly n nodes for One/Two/Three");
                 }
-                kani::cover!(nodes.len() >= 1, "a non-empty selection");
             },
             Err(ConsistencyError::NotEnoughNodes { .. }) => {
                 assert!(
@@ -107,50 +130,45 @@ mod verif_c15 {
             },
             Err(_) => assert!(false, "selection fails only with not-enough-nodes"),
         }
+        kani::cover!(true, "the selection returned and was checked");
         std::mem::forget(res);
         std::mem::forget(dcs);
     }
 
-    fn all_levels(layout: &[usize], local_dc: usize, local_node: usize) {
+    /// four of the levels that do not go through select_n_nodes, chosen symbolically (Quorum has a harness of its own:
+    /// its round-robin loop over per-data-centre iterators is ten times as expensive)
+    fn other_levels(layout: &[usize], local_dc: usize, local_node: usize) {
         let lv: u8 = kani::any();
-        kani::assume(lv < 8);
+        kani::assume(lv < 4);
         match lv {
             0 => check(layout, local_dc, local_node, Consistency::None),
-            1 => check(layout, local_dc, local_node, Consistency::One),
-            2 => check(layout, local_dc, local_node, Consistency::Two),
-            3 => check(layout, local_dc, local_node, Consistency::Three),
-            4 => check(layout, local_dc, local_node, Consistency::Quorum),
-            5 => check(layout, local_dc, local_node, Consistency::LocalQuorum),
-            6 => check(layout, local_dc, local_node, Consistency::All),
+            1 => check(layout, local_dc, local_node, Consistency::LocalQuorum),
+            2 => check(layout, local_dc, local_node, Consistency::All),
             _ => check(layout, local_dc, local_node, Consistency::EachQuorum),
         }
     }
 
-    macro_rules! selector_harness {
+    macro_rules! selector_others_harness {
         ($name:ident, $layout:expr, $dc:expr, $node:expr) => {
             #[kani::proof]
-            #[kani::unwind(8)]
+            #[kani::unwind(@@UNWIND@@)]
             fn $name() {
-                all_levels(&$layout, $dc, $node);
+                other_levels(&$layout, $dc, $node);
             }
         };
     }
 
-    selector_harness!(c15_l3_p00, [3], 0, 0);
-    selector_harness!(c15_l3_p01, [3], 0, 1);
-    selector_harness!(c15_l3_p02, [3], 0, 2);
-    selector_harness!(c15_l22_p00, [2, 2], 0, 0);
-    selector_harness!(c15_l22_p11, [2, 2], 1, 1);
-    selector_harness!(c15_l13_p00, [1, 3], 0, 0);
-    selector_harness!(c15_l13_p11, [1, 3], 1, 1);
-    selector_harness!(c15_l111_p10, [1, 1, 1], 1, 0);
-    selector_harness!(c15_l222_p00, [2, 2, 2], 0, 0);
-
-    // one concrete configuration, one level: cost probe / vacuity witness
-    #[kani::proof]
-    #[kani::unwind(8)]
-    fn c15_probe_l3_two() {
-        check(&[3], 0, 0, Consistency::Two);
+    macro_rules! selector_harness {
+        ($name:ident, $layout:expr, $dc:expr, $node:expr, $level:expr) => {
+            #[kani::proof]
+            #[kani::unwind(@@UNWIND@@)]
+            fn $name() {
+                check(&$layout, $dc, $node, $level);
+            }
+        };
     }
+
+    // one harness per (layout, local position, level): generated by plans/c15.py
+@@HARNESSES@@
     // @@PLAYBACK@@
 }
